@@ -84,7 +84,7 @@ def single_pass_pairing(ctx: Ctx) -> None:
     prog = ctx.prog
     n = 0
     for f in prog.all_funcs():
-        if isinstance(f.node, ast.Lambda) or f.parent is None or not f.is_generator or not _feeds_pool(f):
+        if isinstance(f.node, ast.Lambda) or f.parent is None or not f.is_generator() or not _feeds_pool(f):
             continue
         n += 1
         parent = f.parent
@@ -165,7 +165,7 @@ def _feeds_pool(f: FuncInfo) -> bool:
 def _label_lists(f: FuncInfo) -> tp.Set[str]:
     out: tp.Set[str] = set()
     for g in f.nested:
-        if g.is_generator:
+        if g.is_generator():
             for c in ast.walk(g.node):
                 if isinstance(c, ast.Call) and isinstance(c.func, ast.Attribute) and c.func.attr == 'append' and isinstance(c.func.value, ast.Name):
                     out.add(c.func.value.id)
@@ -233,7 +233,7 @@ def config_alignment(ctx: Ctx) -> None:
         f = prog.func(qual)
         inl = roles.Inliner(f.node)
         problems = []
-        gens = [g for g in f.nested if g.is_generator and any(isinstance(y, ast.Yield) for y in walk_local(g.node))
+        gens = [g for g in f.nested if g.is_generator() and any(isinstance(y, ast.Yield) for y in walk_local(g.node))
                 and not any(isinstance(c, ast.Call) and isinstance(c.func, ast.Attribute) and c.func.attr == 'map' for c in ast.walk(g.node))]
         pools = [c for c in ast.walk(f.node) if isinstance(c, ast.Call) and kwarg(c, 'max_workers') is not None]
         if not pools:
